@@ -498,8 +498,9 @@ class Tr:
                 if f.attr in self.targets and self.targets[f.attr].method:
                     return self.call_target(self.targets[f.attr], e, [])
                 if not e.args and not e.keywords:
+                    # self.m() as a VALUE: the class's pure query "m()", unless an instance attribute m shadows it
                     t = self.fresh()
-                    return [(t, 'self_getattr h (s2p "%s()")' % f.attr)], t, "val"
+                    return [(t, 'self_query h (s2p "%s")' % f.attr)], t, "val"
                 b, args = self.args(e)
                 t = self.fresh()
                 return b + [(t, 'w_call w (s2p "%s") %s' % (f.attr, args))], t, "val"
